@@ -342,8 +342,8 @@ func checkC12(c *Check) {
 		files := map[string]string{"original.tsh": j.prog.Src, "variant.tsh": j.v.text}
 		key := fmt.Sprintf("%s/%s@%d", j.v.op, j.prog.Name, j.v.site)
 		for _, tc := range []struct {
-			name   string
-			o, v   TResult
+			name string
+			o, v TResult
 		}{{"bash", base.a, a}, {"batch", base.b, b}} {
 			vo, vv := verdictOf(tc.o), verdictOf(tc.v)
 			if vo != vv {
